@@ -51,7 +51,7 @@ structure St where
   clock : Nat := 0
   threads : Array (Nat × List OpSpec) := #[]
   -- oracle side
-  hist : List (Nat × Nat × Nat × Bool) := []      -- completed adds: (now, ev, amt, sure)
+  hist : List (Nat × Nat × Nat × Bool × Bool) := []      -- completed adds: (now, ev, amt, sure, wild)
 
 /-! ## model side -/
 
@@ -79,14 +79,17 @@ def drainRec : Nat → Rec → Rec
     if r.c.allFinished then r
     else drainRec fuel ((List.range r.c.th.length).foldl stepRec r)
 
-def runRound (sh : Shared) (clock : Nat) (threads : Array (Nat × List OpSpec)) (es : List Entry) : Rec :=
+def initRound (sh : Shared) (clock : Nat) (threads : Array (Nat × List OpSpec)) : Rec :=
   let c0 : Cfg := { sh := sh, clock := clock, th := threads.toList.map fun p => mkThread p.2 }
   let r0 : Rec := { c := c0, pts := threads.map fun _ => #[] }
   -- 1. initial advance, in thread order, each at its clock reading
-  let r1 := (List.range threads.size).foldl (fun r i =>
+  (List.range threads.size).foldl (fun r i =>
     let ck := (threads[i]?.map (·.1)).getD r.c.clock
     let r := { r with c := r.c.exec (.tick (ck - r.c.clock)) }
     stepRec r i) r0
+
+def runRound (sh : Shared) (clock : Nat) (threads : Array (Nat × List OpSpec)) (es : List Entry) : Rec :=
+  let r1 := initRound sh clock threads
   -- 2. the schedule
   let r2 := es.foldl (fun r e => match e with
     | .tick d => { r with c := r.c.exec (.tick d) }
@@ -134,62 +137,80 @@ def parseFinal? (s : String) : Option (List (List Nat)) :=
 
 def sumL (xs : List Nat) : Nat := xs.foldl (· + ·) 0
 
-/-- Judge one round of the implementation.
-    `adds` of the round: (now, ev, amt); reads: (now, op, val). -/
+/-- Judge one round of the implementation's trace.
+
+* **no invention**: a read never exceeds the amounts of the adds (same event) that have *started* before it returned:
+  everything of earlier rounds, the other threads of this round, the reader's own earlier operations;
+* **expired never visible** (`n ≥ 2`, stall condition): … nor the part of them whose bucket is not deprecated at the
+  reader's clock reading (and lies in the view's start range) — above that bound, in a round where a slot reset ran
+  next to another thread, the verdict is `known:stale-counters-visible`;
+* **nothing lost without overlap**: a read is at least the amounts recorded *for sure* (in rounds without a reset next to
+  another thread) in its strict window by operations that had returned before the round / before it in its own thread;
+* **own bucket** (`n ≥ 2`, stall condition): a final bucket never holds more of an event than was recorded with a
+  timestamp inside it, and at least what was recorded for sure.
+
+Stall condition of a round: final clock − smallest clock reading of its operations ≤ one bucket length. -/
 def judge (s : St) (results : List (List (Nat × Option Nat))) (pts : String) (final : List (List Nat)) (fclock : Nat) :
-    String × List (Nat × Nat × Nat × Bool) :=
+    String × List (Nat × Nat × Nat × Bool × Bool) :=
   let n := s.sh.n
   let L := s.sh.L
   let I := n * L
   let progs := s.threads.toList.map (·.2)
-  -- ops of the round paired with their results
-  let ops : List (OpSpec × Nat × Option Nat) :=
-    (progs.zip results).flatMap fun pr => (pr.1.zip pr.2).map fun x => (x.1, x.2.1, x.2.2)
   let wellFormed := progs.length == results.length && (progs.zip results).all fun pr => pr.1.length == pr.2.length
   if !wellFormed then ("bad results-shape", []) else
-  let roundAdds : List (Nat × Nat × Nat) := ops.filterMap fun o => match o.1 with
-    | .add ev amt => some (o.2.1, ev, amt) | _ => none
+  -- (tid, pos, op, now, val)
+  let ops : List (Nat × Nat × OpSpec × Nat × Option Nat) :=
+    ((List.range progs.length).zip (progs.zip results)).flatMap fun tp =>
+      ((List.range tp.2.1.length).zip (tp.2.1.zip tp.2.2)).map fun x => (tp.1, x.1, x.2.1, x.2.2.1, x.2.2.2)
   let multi := decide (progs.length > 1)
   let anyReset := (pts.splitOn "bla.reset.start").length > 1
-  let minNow := ops.foldl (fun m o => min m o.2.1) fclock
-  let stallOk := decide (fclock - minNow ≤ L)
-  let sure := (!multi || !anyReset) && (stallOk || !multi) && decide (n ≥ 2)
-  let newHist := roundAdds.map fun a => (a.1, a.2.1, a.2.2, sure)
-  let allAdds : List (Nat × Nat × Nat × Bool) := s.hist ++ newHist
-  -- per read
+  let minNow := ops.foldl (fun m o => min m o.2.2.2.1) fclock
+  let stallOk := decide (fclock - minNow ≤ L) || !multi
+  let overlap := multi && anyReset
+  let sure := !overlap && stallOk && decide (n ≥ 2)
+  -- adds of the round: (tid, pos, now, ev, amt)
+  let roundAdds : List (Nat × Nat × Nat × Nat × Nat) := ops.filterMap fun o => match o.2.2.1 with
+    | .add ev amt => some (o.1, o.2.1, o.2.2.2.1, ev, amt) | _ => none
+  -- adds of a round that broke the stall condition may have been credited to a later bucket: `wild`
+  let wild := !stallOk
+  let newHist := roundAdds.map fun a => (a.2.2.1, a.2.2.2.1, a.2.2.2.2, sure, wild)
+  let allAdds : List (Nat × Nat × Nat × Bool × Bool) := s.hist ++ newHist
   let readVerdicts : List String := ops.filterMap fun o =>
-    match o.1, o.2.2 with
+    let tid := o.1
+    let pos := o.2.1
+    let now := o.2.2.2.1
+    match o.2.2.1, o.2.2.2.2 with
     | .count ev, some v | .viewsum ev, some v =>
-      let now := o.2.1
-      let isView := match o.1 with | .viewsum _ => true | _ => false
-      let total := sumL (allAdds.filterMap fun a => if a.2.1 = ev then some a.2.2.1 else none)
+      let isView := match o.2.2.1 with | .viewsum _ => true | _ => false
+      let started : List (Nat × Nat × Nat × Bool × Bool) := s.hist ++ roundAdds.filterMap fun a =>
+        if a.1 ≠ tid ∨ a.2.1 < pos then some (a.2.2.1, a.2.2.2.1, a.2.2.2.2, sure, wild) else none
+      let before : List (Nat × Nat × Nat × Bool × Bool) := s.hist ++ roundAdds.filterMap fun a =>
+        if a.1 = tid ∧ a.2.1 < pos then some (a.2.2.1, a.2.2.2.1, a.2.2.2.2, sure, wild) else none
+      let total := sumL (started.filterMap fun a => if a.2.1 = ev then some a.2.2.1 else none)
       if v > total then some s!"bad invented: read {v} of event {ev} at {now}, only {total} recorded" else
       if n < 2 then none else
       let rg := rangeOf L s.sh.Iv now
       let inWin (b : Nat) (strict : Bool) : Bool :=
         !deprecated I now b && (!strict || decide (now - b < I)) && (!isView || decide (rg.1 ≤ b ∧ b ≤ rg.2))
-      let upper := sumL (allAdds.filterMap fun a => if a.2.1 = ev && inWin (cbs L a.1) false then some a.2.2.1 else none)
-      let lower := sumL (s.hist.filterMap fun a => if a.2.1 = ev && a.2.2.2 && inWin (cbs L a.1) true then some a.2.2.1 else none)
+      let upper := sumL (started.filterMap fun a => if a.2.1 = ev && (a.2.2.2.2 || inWin (cbs L a.1) false) then some a.2.2.1 else none)
+      let lower := sumL (before.filterMap fun a => if a.2.1 = ev && a.2.2.2.1 && inWin (cbs L a.1) true then some a.2.2.1 else none)
       if v > upper then
-        if multi && !stallOk then none
-        else if multi && anyReset then some "known:stale-counters-visible"
+        if !stallOk then none
+        else if overlap then some "known:stale-counters-visible"
         else some s!"bad expired-visible: read {v} of event {ev} at {now}, only {upper} recorded in its window"
-      else if v < lower && !(multi && anyReset) && (stallOk || !multi) then
+      else if v < lower && !overlap && stallOk then
         some s!"bad lost: read {v} of event {ev} at {now}, at least {lower} recorded in its window before"
-      else if !multi && v != upper && sumL (allAdds.filterMap fun a => if a.2.1 = ev && !a.2.2.2 then some 1 else none) == 0 then
-        some s!"bad inexact: sequential read {v} of event {ev} at {now}, recorded {upper}"
       else none
     | _, _ => none
-  -- final buckets: an amount is only ever credited to the bucket its timestamp selects
   let finalVerdicts : List String := final.flatMap fun b =>
     match b with
     | st :: cs =>
       (List.range 5).filterMap fun ev =>
         let c := cs.getD ev 0
-        let own := sumL (allAdds.filterMap fun a => if a.2.1 = ev && cbs L a.1 = st then some a.2.2.1 else none)
-        let ownSure := sumL (allAdds.filterMap fun a => if a.2.1 = ev && cbs L a.1 = st && a.2.2.2 then some a.2.2.1 else none)
+        let own := sumL (allAdds.filterMap fun a => if a.2.1 = ev && (a.2.2.2.2 || cbs L a.1 = st) then some a.2.2.1 else none)
+        let ownSure := sumL (allAdds.filterMap fun a => if a.2.1 = ev && cbs L a.1 = st && a.2.2.2.1 then some a.2.2.1 else none)
         if n < 2 then none
-        else if multi && !stallOk then none
+        else if !stallOk then none
         else if c > own then some s!"bad foreign-credit: bucket {st} holds {c} of event {ev}, only {own} recorded with a timestamp in it"
         else if c < ownSure then some s!"bad lost: bucket {st} holds {c} of event {ev}, {ownSure} recorded without overlap"
         else none
@@ -251,7 +272,40 @@ def step (oracle : Bool) (s : St) (ts : List String) (line : String) : St × Opt
       else (s, some "ok")
   | _ => (s, some "bad-op")
 
+/-! ## schedule enumeration (mode `enum`): all complete interleavings of the declared round, depth-first on the model.
+A schedule longer than `depth` is cut there (the rest is the drain); enumeration stops after `limit` schedules. -/
+
+partial def dfs (limit depth : Nat) (c : Cfg) (pref : List Nat) (acc : Array String × Bool) : Array String × Bool :=
+  if acc.1.size ≥ limit then (acc.1, true) else
+  let alive := (List.range c.th.length).filter fun i => match c.th[i]? with | some t => !t.finished | none => false
+  if alive.isEmpty || pref.length ≥ depth then
+    (acc.1.push (" ".intercalate (pref.reverse.map toString)), acc.2)
+  else alive.foldl (fun acc i => dfs limit depth (c.exec (.step i)) (i :: pref) acc) acc
+
+partial def enumLoop : IO Unit := do
+  let stdin ← IO.getStdin
+  let stdout ← IO.getStdout
+  let rec go (st : St) (cid : String) : IO Unit := do
+    let line ← stdin.getLine
+    if line.isEmpty then return ()
+    let op := opPart line
+    match toks op with
+    | ["case", id] => go ({} : St) id
+    | ["enum", d, l] =>
+      match d.toNat?, l.toNat? with
+      | some d, some l =>
+        let r := initRound st.sh st.clock st.threads
+        let (xs, trunc) := dfs l d r.c [] (#[], false)
+        stdout.putStrLn s!"# {cid} {xs.size} {if trunc then "truncated" else "complete"}"
+        for x in xs do stdout.putStrLn s!"{cid} sched {x}"
+        go { st with threads := #[] } cid
+      | _, _ => go st cid
+    | [] => go st cid
+    | ts => go (step false st ts line).1 cid
+  go ({} : St) "x"
+  stdout.flush
+
 def run (mode : String) : IO Unit :=
-  loop ({} : St) (step (mode == "oracle"))
+  if mode == "enum" then enumLoop else loop ({} : St) (step (mode == "oracle"))
 
 end Sentinel.Drv.C09
